@@ -36,6 +36,22 @@ fn main() {
     ctx.run_slice(Slice::new(format!("lax-triples[{}^3]", lspec3.name()), ln3 * ln3 * ln3, |i, loc| {
         check_lax_assoc(&lu3[(i / (ln3 * ln3)) as usize], &lu3[((i / ln3) % ln3) as usize], &lu3[(i % ln3) as usize], loc)
     }));
+    // larger operands: all pairs of structured diagrams (up to ~8 nodes, 5 hyperedges, arity 3), strict and lax
+    // (the lax right operand carries a chain of pending unifications)
+    let st: Vec<_> = ohmc::props::structured::shapes(3).into_iter().map(|x| x.1).collect();
+    let ns = st.len() as u64;
+    ctx.run_slice(Slice::new(format!("structured-pairs[{}^2, strict and lax]", ns), ns * ns, |i, loc| {
+        let (f, g) = (&st[(i / ns) as usize], &st[(i % ns) as usize]);
+        check_pair::<B>(f, g, loc);
+        let lf = ohmc_core::plain::PLax { open: f.clone(), quot: (1..f.nodes.len()).map(|v| (v, v - 1)).take(2).collect() };
+        let lg = ohmc_core::plain::PLax { open: g.clone(), quot: (1..g.nodes.len()).map(|v| (v - 1, v)).collect() };
+        check_lax_pair(&lf, &lg, loc);
+    }));
+    let st3: Vec<_> = ohmc::props::structured::shapes(2).into_iter().map(|x| x.1).step_by(3).collect();
+    let n3 = st3.len() as u64;
+    ctx.run_slice(Slice::new(format!("structured-triples[{}^3]", n3), n3 * n3 * n3, |i, loc| {
+        check_assoc::<B>(&st3[(i / (n3 * n3)) as usize], &st3[((i / n3) % n3) as usize], &st3[(i % n3) as usize], loc)
+    }));
     let meta = Meta {
         rule: "all pairs / triples / single diagrams of the listed universes (strict, and lax with pending unification pairs); exact comparison of the decoded result (plus deep well-formedness of every raw field) with the juxtaposition computed on the plain model; non-trivial = both operands non-empty and the right operand has something to shift".into(),
         bounds: "strict pairs: <=2 nodes, <=1 edge, arity <=2, 2+2 labels, interfaces <=1 (quick) / <=2 (thorough); unit: <=3 nodes, <=2 edges; triples: <=2 nodes, <=1 edge of arity <=1; lax: same with <=1-2 pending pairs".into(),
